@@ -10,7 +10,8 @@ import os
 from sim import devices
 from sim.canon import Log, dec_table, canon_rows
 from sim.core import outcome, ddmin_lists
-from sim.devices import SimTable, SimSourceError, SOURCE_ERROR_KINDS
+from sim.devices import (SimTable, SimSourceError, SOURCE_ERROR_KINDS,
+                         INJECTED_SOURCE_FAILURES)
 from sim.gen import gen_sort_table, FIELDS
 from sim.loader import load_petl
 from sim.models import ref_sort, ref_cat, resolve_key, row_key, ref_cmp
@@ -173,7 +174,7 @@ def _short_key_cell(case, tables):
 
 
 def _is_injected(t, e):
-    return isinstance(e, SimSourceError)
+    return isinstance(e, INJECTED_SOURCE_FAILURES)
 
 
 def _history(e, case, tables, expected, td, sb, log, probes):
